@@ -651,12 +651,9 @@ def gen_graph(rng, idx):
             fix = {"op": "set", "node": i, "field": f,
                    "value": {"k": "list", "l": []} if f == "lr" else v_int(rng.randrange(1, 4))}
         else:
-            fix = {"op": "set", "node": rng.randrange(n), "field": "d" if classes[0] != classes[-1] and classes[-1] in (C_N, C_N1, C_N2) and False else "a",
-                   "value": v_int(7)}
-            if classes[fix["node"]] == C_TK:
-                fix["value"] = v_int(idx * 16 + 15)
-            if [fix["node"], fix["field"]] == removed:
-                fix["field"] = "m" if f == "a" else "a"
+            j = rng.randrange(n)
+            fix = {"op": "set", "node": j, "field": "m" if [j, "a"] == removed else "a",
+                   "value": v_int(idx * 16 + 15 if classes[j] == C_TK else 7)}
         ops = [{"op": "submit", "root": 0, "init": init[0]}, fix, {"op": "submit", "root": 0, "init": init[0]}]
     else:
         roots = [rng.randrange(n) for _ in range(rng.choice([1, 2]))]
@@ -986,6 +983,9 @@ def run(c: Check):
     viol_before = 0
     for case, a in zip(assign, ra):
         case["ans"] = a
+        if "default_input" in a and case.get("default") is not None:
+            case.setdefault("default_written", case["default"])
+            case["default"] = a["default_input"]       # as Python built it (equal dict keys are merged by the literal)
         c.evaluations += 1
         c.count("assign:stream=" + case.get("stream", "golden"))
         c.count("assign:depth=%d" % type_depth(strip_opt(case["annot"])))
